@@ -6,6 +6,7 @@ import (
 	"fmt"
 	"strings"
 	"sync"
+	"sync/atomic"
 	"time"
 
 	"github.com/AdguardTeam/AdGuardDNS/internal/dnsserver"
@@ -306,4 +307,177 @@ func (e *env) doqLongLived() {
 
 	r.Bucket("doq_long_lived_max_streams_attempted_on_one_connection", int64(maxAttempted))
 	r.Require("doq_long_lived_max_streams_attempted_on_one_connection", 101)
+}
+
+// labelPark marks names for which the parking handler waits for the harness.
+const labelPark = "hpark"
+
+// poolBurst holds more than 10 000 queries inside the handler of ONE plain-DNS
+// server at the same instant (its UDP and TCP listeners share one worker pool),
+// sends an ordinary query over TCP meanwhile, releases them, and then probes
+// both listeners: a burst may cost the queries of the burst something, but it
+// can not take a listener down.
+func (e *env) poolBurst() {
+	r := e.r
+	began := time.Now()
+	defer func() { r.Extra("pool_burst_seconds", time.Since(began).Seconds()) }()
+
+	const (
+		total   = 10300
+		sockets = 8
+		batch   = 100
+	)
+
+	var entered atomic.Int64
+	release := make(chan struct{})
+	released := false
+	open := func() {
+		if !released {
+			released = true
+			close(release)
+		}
+	}
+	defer open()
+
+	h := dnsserver.HandlerFunc(func(ctx context.Context, rw dnsserver.ResponseWriter, req *dns.Msg) error {
+		hInvocations.Add(1)
+		if len(req.Question) == 1 && strings.EqualFold(firstLabel(req.Question[0].Name), labelPark) {
+			entered.Add(1)
+			<-release
+		}
+
+		return hServe(ctx, rw, req)
+	})
+
+	b, err := tbench.Start(tbench.Config{
+		Handler: h,
+		Metrics: newProdMetrics(&tbench.CountingMetrics{}),
+		Only:    []tbench.Server{tbench.SrvDNS},
+		DNS:     tbench.StreamOptions{MaxUDPRespSize: configuredUDPMax, ReadTimeout: serverReadTimeout},
+	})
+	if err != nil {
+		r.Inconclusive("cannot start the burst bench: " + err.Error())
+
+		return
+	}
+	defer func() { _ = b.Close() }()
+
+	e5 := &env{
+		r: r, b: b, http: map[tbench.HTTPVariant]*tbench.HTTPClient{},
+		answerWait: e.answerWait, udpWait: e.udpWait, silenceWait: e.silenceWait, salt: e.salt,
+		canons: map[int]map[string]canon{}, wantSamples: map[string]struct{}{},
+	}
+	pUDP := &pathDef{name: "burst-udp", family: famUDP}
+	pTCP := &pathDef{name: "burst-tcp", family: famStream}
+
+	socks := make([]*tbench.UDPClient, sockets)
+	for i := range socks {
+		socks[i], err = b.DialUDP()
+		if err != nil {
+			r.Inconclusive("burst: cannot open a client socket: " + err.Error())
+
+			return
+		}
+		defer func(c *tbench.UDPClient) { _ = c.Close() }(socks[i])
+	}
+
+	// Park the queries, batch by batch, waiting until the handler has seen each
+	// batch so that nothing waits in a socket buffer.
+	sent := 0
+	stalled := false
+	for sent < total && !stalled {
+		for k := 0; k < batch && sent < total; k++ {
+			q := tbench.QuerySpec{
+				ID: permID(sent, e.salt), Flags: tbench.FlagRD, QType: dns.TypeA, QClass: dns.ClassINET,
+				Name: tbench.WireName([]byte(labelPark), token("b", sent), []byte("test")),
+			}
+			if sErr := socks[sent%sockets].Send(q.Wire()); sErr != nil {
+				// ECONNREFUSED: the listener is gone already.
+				stalled = true
+
+				break
+			}
+			sent++
+		}
+
+		deadline := time.Now().Add(5 * time.Second)
+		for entered.Load() < int64(sent) {
+			if time.Now().After(deadline) {
+				// The server does not take the datagrams (any more).
+				stalled = true
+
+				break
+			}
+
+			time.Sleep(time.Millisecond)
+		}
+	}
+
+	r.Bucket("pool_burst_datagrams_sent", int64(sent))
+	r.Bucket("pool_burst_handlers_busy_at_once", entered.Load())
+
+	// While the handlers are busy: an ordinary query over TCP.
+	tcp := &streamSession{e: e5, p: pTCP}
+	e5.evalOne(pTCP, tcp, genPlain(r, "burst", 0, e.salt))
+	tcp.finish()
+
+	open()
+
+	// The answers of the burst: whatever arrives must belong to a query of
+	// its socket and come once; a missing one may have been lost in a socket
+	// buffer and is only counted.
+	seen := map[uint16]int{}
+	answered := 0
+	for _, c := range socks {
+		for _, d := range c.Drain(300 * time.Millisecond) {
+			if len(d) < 2 {
+				continue
+			}
+
+			id := binary.BigEndian.Uint16(d)
+			seen[id]++
+			answered++
+		}
+	}
+
+	valid := map[uint16]bool{}
+	for i := 0; i < sent; i++ {
+		valid[permID(i, e.salt)] = true
+	}
+	for id, n := range seen {
+		switch {
+		case !valid[id]:
+			r.Violation("any:burst-udp:foreign-id", "a response arrived whose ID was never sent", map[string]any{"id": id})
+		case n > 1:
+			r.Violation("accept:burst-udp:extra-response", "more than one response arrived for one query of the burst", map[string]any{"id": id, "responses": n})
+		}
+	}
+	r.Bucket("pool_burst_answers_received", int64(answered))
+
+	// After the burst both listeners must answer.
+	for k := 0; k < 3; k++ {
+		us, sErr := e5.newSession(pUDP)
+		if sErr != nil {
+			e5.infraFailure("burst-udp:session", sErr)
+
+			continue
+		}
+		e5.evalOne(pUDP, us, e.nextProbe())
+		us.finish()
+
+		ts := &streamSession{e: e5, p: pTCP}
+		e5.evalOne(pTCP, ts, e.nextProbe())
+		ts.finish()
+	}
+
+	e5.mu.Lock()
+	infra := e5.infra
+	e5.mu.Unlock()
+	e.mu.Lock()
+	e.infra += infra
+	e.mu.Unlock()
+
+	r.Require("pool_burst_datagrams_sent", 10001)
+	r.Require("path:burst-udp:liveness", 3)
+	r.Require("path:burst-tcp:liveness", 3)
 }
